@@ -18,16 +18,17 @@ def table():
         own = cr.get(pid, {})
         others = ['%s: %s' % (k, v.get('verdict')) for k, v in sorted(cr.items()) if k != pid]
         qs = own.get('queries_with_counterexample') or []
-        rows[rnd].append('| %s | %s | %s | %s | %s |%s' % (
-            m['id'], m['change'].replace('|', '/'), m['needs_to_manifest'].replace('|', '/'), own.get('verdict', 'not run'),
-            ', '.join(qs[:4]) + (' …' if len(qs) > 4 else ''), (' ' + '; '.join(others) + ' |') if others else ' |'))
+        rows[rnd].append('| %s | %s | %s | %s | %s |' % (
+            m['id'], m['change'].replace('|', '/'), m['needs_to_manifest'].replace('|', '/'),
+            own.get('verdict', 'not run') + ((' (also run: ' + '; '.join(others) + ')') if others else ''),
+            ', '.join(qs[:4]) + (' …' if len(qs) > 4 else '')))
     out = []
     for rnd in (1, 2, 3):
         if not rows[rnd]:
             continue
         out.append('**Round %d**\n' % rnd)
-        out.append('| id | change | needs | verdict of the property\'s check | queries with a counterexample | other checks run |')
-        out.append('|---|---|---|---|---|---|')
+        out.append('| id | change | needs | verdict of the property\'s check | queries with a counterexample |')
+        out.append('|---|---|---|---|---|')
         out += rows[rnd]
         out.append('')
     return '\n'.join(out)
